@@ -406,6 +406,7 @@ type Frag struct {
 	Name string `json:"name"`
 	Cond string `json:"cond"`
 	Sels []Sel  `json:"sels"`
+	Bad  string `json:"bad"` // injected defect (C10): a directive on the definition
 }
 
 type Doc struct {
@@ -786,7 +787,7 @@ func (doc *Doc) Text(lo Layout) string {
 		r.sels(op.Sels, 0)
 	}
 	for _, f := range doc.Frags {
-		r.b.WriteString(lo.Open + "fragment " + f.Name + " on " + f.Cond + " ")
+		r.b.WriteString(lo.Open + "fragment " + f.Name + " on " + f.Cond + badText[f.Bad] + " ")
 		r.sels(f.Sels, 0)
 	}
 	r.b.WriteString(lo.Open)
